@@ -4,6 +4,14 @@ import json, os
 V = os.path.dirname(os.path.dirname(os.path.abspath(__file__)))
 
 CHECKS = {
+    'C06': ('output-grammar provenance rules + exhaustive leaf-type table lookup (syn-based abstract interpreter)',
+            'Structural clauses on the struct item template: fields iterate the member list in order, filtered only by not-builtin, names by identity, type hole = the type table on module.types[member.ty] under options.matrix_vector_types; the table is looked up at the use site over its whole finite leaf domain (scalars, atomics, vec2-4, 9 matrix shapes x f32/f64 x Rust/Glam/Nalgebra) against oracle formulas; array/struct/runtime-array rows checked structurally.',
+            'Trusted: Engine A semantics; oracle formulas of DESIGN appendix A.3; rustc layout is C05\'s subject.',
+            'DESIGN.md section 3 C06'),
+    'C15': ('decision-table rule over naga::Literal (variants/payload types read from the pinned naga source) on the extracted constant template',
+            'For every Literal variant: declared type token == payload Rust type, value hole == the bound payload with an empty conversion chain; name identity; only has-a-name / is-literal filters; non-literal expressions yield no item. Since quote prints suffixed literals of the payload type, type and value agree for every constant.',
+            'Trusted: Engine A semantics; float printing/parsing round-trip in proc-macro2/syn/prettyplease/rustfmt (library law).',
+            'DESIGN.md section 3 C15'),
     'C02': ('abstract interpretation of the generator (syn) -> extracted decision table, exhaustive lookup over the finite domain of WGSL resource types vs. a wgpu-core oracle',
             'Exhaustive over a finite domain: the `ty:` decision table of the layout-entry template is extracted from the source and looked up at every WGSL-spellable resource type (703 points enumerated from the pinned naga source: buffers x address spaces, sampled/depth/multisampled textures x 6 view dimensions, all 41 storage formats x 4 accesses x 4 dimensions, samplers); the emitted wgpu::BindingType tokens are compared with an oracle transliterated from wgpu-core 24 (check_binding_use, map_storage_format_to_naga, create_bind_group_layout entry rules). Visibility (C03 rules) is evaluated in the same run because the statement includes it.',
             'Trusted: Engine A\'s abstract semantics of the Rust idioms used; the hand-transliterated oracle (rows cite wgpu-core functions); naga reports types as enumerated. Existence/order of bindings is C04/C11.',
